@@ -5,6 +5,7 @@ go 1.25.0
 require (
 	github.com/blevesearch/bleve/v2 v2.0.0
 	github.com/blevesearch/bleve_index_api v1.4.0
+	github.com/blevesearch/geo v0.2.5
 	github.com/blevesearch/scorch_segment_api/v2 v2.4.8
 	github.com/blevesearch/upsidedown_store_api v1.0.2
 	github.com/couchbase/moss v0.2.0
@@ -15,7 +16,6 @@ require (
 require (
 	github.com/RoaringBitmap/roaring/v2 v2.14.5 // indirect
 	github.com/bits-and-blooms/bitset v1.24.2 // indirect
-	github.com/blevesearch/geo v0.2.5 // indirect
 	github.com/blevesearch/go-metrics v0.0.0-20201227073835-cf1acfcdf475 // indirect
 	github.com/blevesearch/go-porterstemmer v1.0.3 // indirect
 	github.com/blevesearch/goleveldb v1.0.1 // indirect
